@@ -9,6 +9,19 @@ package mkvs
 //@   ensures fresh(result)
 //@   note an overlay is a new tree object layered over inner; nothing is written to inner until Commit
 
+//@ import "context"
+
+//@ func OverlayTree.Copy
+//@   iface (self OverlayTree, inner KeyValueTree) (result OverlayTree)
+//@   modifies nothing
+//@   ensures fresh(result)
+//@   note an isolated copy: a new tree object; the original overlay and both inner trees are not written
+
+//@ func OverlayTree.Commit
+//@   iface (self OverlayTree, ctx context.Context) (result KeyValueTree, err error)
+//@   modifies kvState()
+//@   note flushes the overlay's pending writes into its inner tree (consensus-state ghost trees only; no Go object reachable from the caller is written)
+
 // ---- commit (C13): a root is persisted only if it is the one the caller was told to reach ----
 
 //@ func tree.commitWithHooks
